@@ -97,7 +97,7 @@ def make_case(r):
                 f'count:declare-const>=1 &')
         rules = realrun.simple_spec(pred)
         chain = 'late'
-    if chain is None and r.random() < 0.12:
+    if chain is None and r.random() < 0.2:
         # Indexed identifiers and a grep-like command: the numerals of
         # (_ bv5 8) or (_ extract 7 0) leave their context when '_' is erased
         # or the list is replaced by a child; whatever ddSMT remembered
@@ -112,6 +112,11 @@ def make_case(r):
                  (f'((_ rotate_left {k1}) v)', 'rotate_left', str(k1)),
                  (f'((_ repeat {k2}) v)', 'repeat', str(k2))]
         picked = r.sample(forms, r.randint(1, 3))
+        simple = r.random() < 0.5
+        if simple:
+            # the plain case: one constant, nothing else that could supply
+            # a token '1'
+            picked = [forms[0]]
         lines = [f'(declare-const v (_ BitVec {w}))'] + [
             f'(assert (distinct v {t}))' if k.startswith('bv')
             or k == 'rotate_left'
@@ -125,7 +130,7 @@ def make_case(r):
         _, name, num = r.choice(picked)
         ntok = len(workload.tokens_of(text))
         pred = (f'has:{realrun.pct(name)} has:{num} has:1 | & '
-                f'ntok>={r.randint(ntok // 4, ntok // 2)} &')
+                f'ntok>={8 if simple else r.randint(ntok // 4, ntok // 2)} &')
         rules = realrun.simple_spec(pred)
         chain = 'indexed'
     if chain is None and r.random() < 0.15:
